@@ -143,9 +143,13 @@ def _install_probe():
             rec.overlaps += 1
         rec.open.append(w)
         rec.windows.append(w)
+        from vf import c22_programs as _progs
+
+        tok = _progs.INV.set(w)
         try:
             return await orig(*a, **kw)
         finally:
+            _progs.INV.reset(tok)
             rec.open.remove(w)
             w["seq1"] = rec.tick()
 
@@ -311,7 +315,7 @@ def run_case(case, acc: Acc):
             acc.hit("acyclic_runs_checked")
             if circular:
                 ov = [w for w in rec.windows if w["others_open"]]
-                viol.append(({"mech": "false_cycle_error_on_concurrent_resolution"},
+                viol.append(({"mech": "false_cycle_error_on_concurrent_resolution", "overlapping_resolutions": bool(ov)},
                              f"acyclic resource graph {deps} but run {idx} failed at vt={vt} with: {detail[:300]} "
                              f"({rec.overlaps} step invocation(s) started resolving while another invocation's resolution was "
                              f"still awaiting a factory; steps {step_params}, workers {[s['workers'] for s in case['steps']]})"
